@@ -75,7 +75,11 @@ RULE = ('Part A: workloads.single_assembly / core_problem over seeds plus '
         'swept with finite temperatures; distinct by feature set. '
         'Part B: catalogue of single-fault mutators x base replicas; a case '
         'is non-trivial when its base ran and the mutant outcome was '
-        'observed; distinct by mutator id.')
+        'observed; distinct by mutator id. quick: 60 singles, 6 cores, 24 '
+        'options x 3, 339 mutators x 3 bases (2 for seven-assembly bases, '
+        'small bundles of 2-4 rings, 0.5 m); thorough: 1200 singles, 100 '
+        'cores (up to 19 assemblies), options x 24, mutators x 24 on bases '
+        'of 2-6 rings, plus the -inf literals.')
 DECIDING = ['A_valid_input_runs', 'B_base_input_runs',
             'B_invalid_input_rejected', 'B_accepted_input_runs']
 CASE_TIMEOUT = {'quick': 120, 'thorough': 400}
